@@ -9,8 +9,9 @@ values handed to svd_incomplete are read from that dense array, so nothing of te
                                   prefixes / suffixes are pairwise distinct in every column (what the recovery needs).
 * C20.svd_incomplete.no_exception for m >= rho, every n_k >= m, cap >= rho the call returns (KNOWN DEFECT of the
                                   pinned tree, DESIGN section 7: a (cnt,1,r) array reaches lstsq for every input).
-* C20.svd_incomplete.wellformed   result is a well-formed TT of the tensor's shape with ranks <= cap (FAIL with a
-                                  clear message if the call raises).
+* C20.svd_incomplete.wellformed   result is a well-formed finite TT of the tensor's shape with ranks <= cap -- also
+                                  for binding caps < rho, where only this structural part of the statement applies
+                                  (FAIL with a clear message if the call raises).
 * C20.svd_incomplete.recover      result equals the tensor: ||dense(Z)-T|| <= 1e-6 ||T|| after the conditioning
                                   rejection below (FAIL with a clear message if the call raises).
 
@@ -205,7 +206,11 @@ def cases(tier, seed):
             for m in (1, 2, 3, 4, 6):
                 for sseed in range(4 if big else 2):
                     yield 'C20.sample_tt.layout', dict(n=nn, m=m, sseed=sseed)
-    for p in _configs(tier, seed):
+    for k, p in enumerate(_configs(tier, seed)):
         yield 'C20.svd_incomplete.no_exception', p
         yield 'C20.svd_incomplete.wellformed', p
         yield 'C20.svd_incomplete.recover', p
+        # "ranks <= the cap" is not conditional on cap >= rho: binding caps for the structural clause only
+        low = list(range(1, p['rho']))
+        for cap in (low if big else low[k % 2:][:1]):
+            yield 'C20.svd_incomplete.wellformed', dict(p, cap=cap)
